@@ -676,6 +676,12 @@ def build_type(gen, d):
         lts = [x.strip() for x in generics.strip('<>').split(',') if x.strip().startswith("'")]
         used = [l for l in lts if any(re.search(re.escape(l) + r'\b', f) for f in fields)]
         extra = ['_x4_%d: core::marker::PhantomData<&%s ()>' % (i, l) for i, l in enumerate(lts) if l not in used]
+        if d.opts.get('derive'):
+            # only derives the directive asks for explicitly (with `+Name`), compiled but left outside verification
+            a = edit_derive('#[derive()]', [x for x in d.opts['derive'] if x.startswith('+')])
+            if a:
+                gen.emit('#[verifier::external_derive]', item_id)
+                gen.emit(a, item_id)
         gen.emit('pub %s %s%s { // X4b: only the listed %s of %s:%s are extracted' % ('enum' if is_enum else 'struct', d.sel, generics, 'variants' if is_enum else 'fields', d.file, d.sel), item_id)
         for f in fields + extra:
             gen.emit('    %s,' % f, item_id)
